@@ -107,7 +107,7 @@ package board
 //@ define epAns(p, m) = existsLegalEP(p, m)
 //@
 //@ func (*Board).CanEnPassant
-//@   props C02
+//@   props C01 C02 C10
 //@   ghost from = to - 2*shifts[b.STM]
 //@   ghost dp = mkMv(uint8(from), uint8(to))
 //@   requires repOK(b) && lightPos(pos(b)) && onBoard(to) && onBoard(from) && isDouble(pos(b), dp) && movable(pos(b), dp)
